@@ -832,6 +832,58 @@ ref("highlight-fallback-byte-end", ["C05"], "the same fallback written with char
              }
              Some(token_start_byte..(token_start_byte + end))"""))
 
+mut("C09", "unset-skips-env-when-local", "R09-4|shell::Shell::remove_env|always|remove_var",
+    "remove_env touches the process environment only when the name was not a shell variable",
+    (S, """        env::remove_var(name);
+        self.envs.remove(name);
+""", """        if self.envs.remove(name).is_none() {
+            env::remove_var(name);
+        }
+"""))
+ref("unset-order-swapped", ["C09", "C10"], "remove_env removes from the shell map first, then from the environment",
+    (S, """        env::remove_var(name);
+        self.envs.remove(name);
+""", """        self.envs.remove(name);
+        env::remove_var(name);
+"""))
+mut("C12", "home-looked-up-once", "R12-8|shell::expand_home|home-read-each-time",
+    "get_user_home caches its first answer in a OnceLock",
+    (TL, """pub fn get_user_home() -> String {
+    match env::var("HOME") {
+        Ok(x) => x,
+        Err(e) => {
+            println_stderr!("cicada: env HOME error: {}", e);
+            String::new()
+        }
+    }
+}""", """pub fn get_user_home() -> String {
+    static HOME: std::sync::OnceLock<String> = std::sync::OnceLock::new();
+    HOME.get_or_init(|| match env::var("HOME") {
+        Ok(x) => x,
+        Err(e) => {
+            println_stderr!("cicada: env HOME error: {}", e);
+            String::new()
+        }
+    })
+    .clone()
+}"""))
+ref("home-via-helper", ["C12"], "get_user_home delegates to a small helper function",
+    (TL, """pub fn get_user_home() -> String {
+    match env::var("HOME") {""", """pub fn get_user_home() -> String {
+    read_home_from_env()
+}
+
+fn read_home_from_env() -> String {
+    match env::var("HOME") {"""))
+mut("C14", "eoi-closes-if", "R14-7|grammar|EXP_IF|closing|KW_FI", "`fi` or the end of input closes an if",
+    ("src/parsers/grammar.pest", 'KW_FI = _{ "fi" ~ (NEWLINE | EOI) }', 'KW_FI = _{ "fi" ~ NEWLINE | EOI }'))
+mut("C11", "splice-pattern-anchored", "R11-9|shell::do_command_substitution_for_dollar|splice-anchored",
+    "the splice pattern gets ^ and $ anchors",
+    (S, 'r"(?P<head>[^\\$]*)\\$\\(.+\\)(?P<tail>.*)"', 'r"^(?P<head>[^\\$]*)\\$\\(.+\\)(?P<tail>.*)$"'))
+mut("C13", "whole-subst-guard-excludes-paren", "R13-5|shell::env_in_token|whole-substitution-guard",
+    "the guard for a whole-token $(...) no longer admits `)` in the body",
+    (S, """        || libs::re::re_contains(token, r"^\\$\\(.+\\)$")""", """        || libs::re::re_contains(token, r"^\\$\\([^\\)]+\\)$")"""))
+
 # ------------------------------------------------------------------ C13
 mut("C13", "env-resets-tag", "R13-2", "expand_env drops the quote tag of the token it rewrites",
     (S, '''    for (i, text) in buff.iter().rev() {
